@@ -145,7 +145,7 @@ func NewCtx(prop, tier string, seed uint64) *Ctx {
 	return &Ctx{Prop: prop, Tier: tier, Seed: seed, Rng: NewRng(seed), Driver: drv, Scratch: scratch,
 		Repo: repo, Verif: verif,
 		Res: &Result{Property: prop, Tier: tier, Seed: seed, Nontrivial: map[string]bool{},
-			Distribution: map[string]int{}, Extra: map[string]interface{}{}, maxViolations: 20}}
+			Distribution: map[string]int{}, Extra: map[string]interface{}{}, maxViolations: 400}}
 }
 
 func (c *Ctx) Thorough() bool { return c.Tier == "thorough" }
